@@ -1,6 +1,22 @@
-import D2V.Model.SemCore
-/-! C10 — Later declarations override earlier ones; null removes. (theorems over the reference interpreter `D2V.Sem`) -/
+import D2V.Model.SemProj
+/-!
+  C10 — Later declarations override earlier ones; null removes.
+
+  Laws of the reference interpreter `D2V.Sem` (the model that the correspondence stream compares with d2 on every
+  generated program), for one map `m` of any reachable or unreachable interpreter state `ir` (no invariant is assumed
+  unless stated):
+
+    findIn_ci            lookup depends on a name only through its case-folded text (and, for reserved keywords, quotedness)
+    assign_sets          after `a: v` the field found under `a` carries `v`              (last write is what is stored)
+    merge_ci             `a: v` then `A: w` (same key): no new field, the one field carries `w`   (merge + last write wins)
+    last_write_wins      `a: v` … then `a: w` with anything in between that leaves the field findable: value `w`
+    null_removes_field   after `a: null` nothing is found under `a`, nor under any path through `a`
+    redeclare_fresh      `a: null` then `a: w`: a new field with a fresh id, value `w`, no map, no earlier references
+
+  and the counterexamples found while modelling (`C10_cx_*`, each replayed on d2, see props/C10/findings.json).
+-/
 namespace D2V.Sem
+open D2V.Gen.SemKw
 open D2V.SemG (fold)
 
 /-- the lookup used by `getField`/`ensureField` depends on a name only through its case-folded text and, for reserved
@@ -17,5 +33,275 @@ theorem findIn_ci (ir : IR) (m : Owner) (a b : Name)
   cases h : a.resLower
   · simp
   · simp [hq h]
+
+theorem matches_refl (a : Name) : a.matches a = true := by
+  unfold Name.matches eqFold; simp
+
+/-- names the single-element theorems talk about: not `_`, not a board keyword / `classes` / `vars` -/
+def Name.ordinary (a : Name) : Prop := a.isUnderscore = false ∧ boardish a = false
+
+/-- the declaration `a: v` -/
+def assign (a : Name) (v : String) : FDecl :=
+  { key := [a], edge := none, idx := none, ekey := [], prim := none, val := some (.str v), opens := false }
+/-- the declaration `a: null` -/
+def assignNull (a : Name) : FDecl :=
+  { key := [a], edge := none, idx := none, ekey := [], prim := none, val := some .null, opens := false }
+
+/-! ### updates that keep the lookup structure -/
+
+theorem find_filter_map {α} (h : α → α) (p q : α → Bool) (hp : ∀ x, p (h x) = p x) (hq : ∀ x, q (h x) = q x) (l : List α) :
+    ((l.map h).filter q).find? p = ((l.filter q).find? p).map h := by
+  induction l with
+  | nil => simp
+  | cons x r ih =>
+    simp only [List.map_cons, List.filter_cons, hq]
+    cases hqx : q x
+    · simpa using ih
+    · simp only [if_true, List.find?_cons, hp]
+      cases hpx : p x
+      · simpa using ih
+      · simp
+
+theorem filter_map_length {α} (h : α → α) (q : α → Bool) (hq : ∀ x, q (h x) = q x) (l : List α) :
+    ((l.map h).filter q).length = (l.filter q).length := by
+  induction l with
+  | nil => simp
+  | cons x r ih =>
+    simp only [List.map_cons, List.filter_cons, hq]
+    cases q x <;> simp [ih]
+
+/-- an update that leaves liveness, owner and name alone commutes with the lookup -/
+theorem findIn_updField (ir : IR) (i : Nat) (g : FNode → FNode)
+    (hg : ∀ f, (g f).alive = f.alive ∧ (g f).owner = f.owner ∧ (g f).name = f.name) (m : Owner) (s : Name) :
+    (ir.updField i g).findIn m s = (ir.findIn m s).map fun f => if f.id == i then g f else f := by
+  unfold IR.findIn IR.fieldsOf IR.updField
+  simp only
+  apply find_filter_map
+  · intro x; by_cases hx : (x.id == i) = true
+    · simp [hx, (hg x).2.2]
+    · simp [hx]
+  · intro x; by_cases hx : (x.id == i) = true
+    · simp [hx, (hg x).1, (hg x).2.1]
+    · simp [hx]
+
+theorem fieldsOf_updField_length (ir : IR) (i : Nat) (g : FNode → FNode)
+    (hg : ∀ f, (g f).alive = f.alive ∧ (g f).owner = f.owner ∧ (g f).name = f.name) (m : Owner) :
+    ((ir.updField i g).fieldsOf m).length = (ir.fieldsOf m).length := by
+  unfold IR.fieldsOf IR.updField
+  simp only
+  apply filter_map_length
+  intro x; by_cases hx : (x.id == i) = true
+  · simp [hx, (hg x).1, (hg x).2.1]
+  · simp [hx]
+
+theorem findIn_mem (ir : IR) (m : Owner) (s : Name) (f : FNode) (h : ir.findIn m s = some f) :
+    f ∈ ir.fields ∧ f.alive = true ∧ f.owner = m ∧ f.name.matches s = true := by
+  unfold IR.findIn IR.fieldsOf at h
+  have h1 := List.find?_some h
+  have h2 := List.mem_of_find?_eq_some h
+  have h3 := List.mem_filter.mp h2
+  simp only [Bool.and_eq_true, beq_iff_eq] at h3
+  exact ⟨h3.1, h3.2.1, h3.2.2, h1⟩
+
+theorem field?_of_mem (ir : IR) (f : FNode) (h : f ∈ ir.fields) : ∃ f', ir.field? f.id = some f' := by
+  unfold IR.field?
+  cases hf : ir.fields.find? (fun x => x.id == f.id) with
+  | some f' => exact ⟨f', rfl⟩
+  | none =>
+    have := List.find?_eq_none.mp hf f h
+    simp at this
+
+/-! ### one declaration `a: v` -/
+
+theorem field?_updField (ir : IR) (i j : Nat) (g : FNode → FNode) (hg : ∀ f, (g f).id = f.id) :
+    (ir.updField i g).field? j = (ir.field? j).map fun f => if f.id == i then g f else f := by
+  unfold IR.field? IR.updField
+  simp only [List.find?_map]
+  have hc : ((fun f : FNode => f.id == j) ∘ fun f => if (f.id == i) = true then g f else f) = (fun f : FNode => f.id == j) := by
+    funext x
+    simp only [Function.comp]
+    split
+    · rw [hg]
+    · rfl
+  rw [hc]
+
+def addRefs (rs : List Ref) (n : FNode) : FNode := { n with refs := n.refs ++ rs }
+def setPrim (v : String) (n : FNode) : FNode := { n with prim := some v }
+
+def refOf (ref : Option (Option Nat × Owner)) (a : Name) : List Ref :=
+  match ref with
+  | some (c, sc) => [{ ctx := c, scope := sc, pos := a.pos }]
+  | none => []
+
+def newField (ir : IR) (m : Owner) (a : Name) (rs : List Ref) : IR :=
+  { ir with fields := ir.fields ++ [{ id := ir.next, owner := m, name := a, refs := rs, hasMap := false }], next := ir.next + 1 }
+
+/-- what `EnsureField` does for a single ordinary name: the field found, with the reference added — or a new field -/
+theorem EnsureField_single (ir : IR) (m : Owner) (a : Name) (ha : a.ordinary) (ref : Option (Option Nat × Owner)) :
+    ir.EnsureField m [a] ref true =
+      match ir.findIn m a with
+      | some f => (ir.updField f.id (addRefs (refOf ref a)), .ok (some f.id))
+      | none => (newField ir m a (refOf ref a), .ok (some ir.next)) := by
+  obtain ⟨hu, hb⟩ := ha
+  unfold IR.EnsureField
+  simp only [hu]
+  unfold IR.ensureField
+  simp only [hb, hu, List.isEmpty_nil, Bool.not_true, Bool.and_false]
+  cases ir.findIn m a <;> simp [addRefs, refOf, newField] <;> rfl
+
+theorem compileFieldVal_assign (ir : IR) (fid : Nat) (a : Name) (v : String) (f0 : FNode) (h : ir.field? fid = some f0) :
+    ir.compileFieldVal fid (assign a v) false = (ir.updField fid (setPrim v), []) := by
+  unfold IR.compileFieldVal
+  have hn : (Val.str v == Val.null) = false := rfl
+  simp [h, isNull, assign, hn]
+  rfl
+
+/-- closed form of `a: v` -/
+theorem evalDecl_assign (rule : IdxRule) (ir : IR) (m : Owner) (a : Name) (ha : a.ordinary) (v : String) :
+    (ir.evalDecl rule m (assign a v)).1 =
+      match ir.findIn m a with
+      | some f => (ir.updField f.id (addRefs [{ ctx := none, scope := m, pos := a.pos }])).updField f.id (setPrim v)
+      | none => (newField ir m a [{ ctx := none, scope := m, pos := a.pos }]).updField ir.next (setPrim v) := by
+  unfold IR.evalDecl
+  have hk : (assign a v).key = [a] := rfl
+  have he : (assign a v).edge = none := rfl
+  simp only [he, hk]
+  rw [EnsureField_single ir m a ha]
+  cases hf : ir.findIn m a with
+  | some f =>
+    simp only [refOf]
+    obtain ⟨hmem, _, _, _⟩ := findIn_mem ir m a f hf
+    obtain ⟨f0, hf0⟩ := field?_of_mem ir f hmem
+    have h1 : (ir.updField f.id (addRefs [{ ctx := none, scope := m, pos := a.pos }])).field? f.id = some (if f0.id == f.id then addRefs [{ ctx := none, scope := m, pos := a.pos }] f0 else f0) := by
+      rw [field?_updField ir f.id f.id (addRefs [{ ctx := none, scope := m, pos := a.pos }]) (fun _ => rfl), hf0]; rfl
+    rw [compileFieldVal_assign _ _ _ _ _ h1]
+  | none =>
+    simp only [refOf]
+    have h1 : (newField ir m a [{ ctx := none, scope := m, pos := a.pos }]).field? ir.next ≠ none := by
+      unfold IR.field? newField
+      simp only [ne_eq, List.find?_eq_none]
+      intro hall
+      exact hall { id := ir.next, owner := m, name := a, refs := [{ ctx := none, scope := m, pos := a.pos }], hasMap := false } (by simp) (by simp)
+    cases h2 : (newField ir m a [{ ctx := none, scope := m, pos := a.pos }]).field? ir.next with
+    | none => exact absurd h2 h1
+    | some f0 => rw [compileFieldVal_assign _ _ _ _ _ h2]
+
+theorem findIn_newField (ir : IR) (m : Owner) (a : Name) (rs : List Ref) (s : Name) (h : ir.findIn m s = none) (hs : a.matches s = true) :
+    (newField ir m a rs).findIn m s = some { id := ir.next, owner := m, name := a, refs := rs, hasMap := false } := by
+  unfold IR.findIn IR.fieldsOf newField at *
+  simp only [List.filter_append, List.find?_append, h]
+  simp [hs]
+
+/-- after `a: v` the field found under `a` carries `v` -/
+theorem assign_sets (rule : IdxRule) (ir : IR) (m : Owner) (a : Name) (ha : a.ordinary) (v : String) :
+    ∃ f, (ir.evalDecl rule m (assign a v)).1.findIn m a = some f ∧ f.prim = some v := by
+  rw [evalDecl_assign rule ir m a ha v]
+  cases hf : ir.findIn m a with
+  | some f =>
+    simp only
+    rw [findIn_updField _ f.id (setPrim v) (fun _ => ⟨rfl, rfl, rfl⟩), findIn_updField _ f.id (addRefs _) (fun _ => ⟨rfl, rfl, rfl⟩), hf]
+    exact ⟨_, rfl, by simp [setPrim, addRefs]⟩
+  | none =>
+    simp only
+    rw [findIn_updField _ ir.next (setPrim v) (fun _ => ⟨rfl, rfl, rfl⟩), findIn_newField ir m a _ a hf (matches_refl a)]
+    exact ⟨_, rfl, by simp [setPrim]⟩
+
+/-- in any state in which `a` is found, `a: w` overrides in place: same field, no new field, value `w` -/
+theorem last_write_wins (rule : IdxRule) (ir : IR) (m : Owner) (a : Name) (ha : a.ordinary) (w : String) (f : FNode)
+    (hf : ir.findIn m a = some f) :
+    ∃ f', (ir.evalDecl rule m (assign a w)).1.findIn m a = some f' ∧ f'.id = f.id ∧ f'.prim = some w ∧
+      ((ir.evalDecl rule m (assign a w)).1.fieldsOf m).length = (ir.fieldsOf m).length := by
+  rw [evalDecl_assign rule ir m a ha w, hf]
+  simp only
+  rw [findIn_updField _ f.id (setPrim w) (fun _ => ⟨rfl, rfl, rfl⟩), findIn_updField _ f.id (addRefs _) (fun _ => ⟨rfl, rfl, rfl⟩), hf,
+    fieldsOf_updField_length _ f.id (setPrim w) (fun _ => ⟨rfl, rfl, rfl⟩), fieldsOf_updField_length _ f.id (addRefs _) (fun _ => ⟨rfl, rfl, rfl⟩)]
+  exact ⟨_, rfl, by simp [setPrim, addRefs], by simp [setPrim, addRefs], rfl⟩
+
+/-- two declarations whose names are equal up to case (and, for reserved keywords, quotedness) denote one field:
+    `a: v` then `A: w` creates no second field and leaves the value `w` -/
+theorem merge_ci (rule : IdxRule) (ir : IR) (m : Owner) (a b : Name) (ha : a.ordinary) (hb : b.ordinary)
+    (hs : fold a.s = fold b.s) (hq : a.resLower = true → a.q = b.q) (v w : String) :
+    let ir1 := (ir.evalDecl rule m (assign a v)).1
+    let ir2 := (ir1.evalDecl rule m (assign b w)).1
+    (ir2.fieldsOf m).length = (ir1.fieldsOf m).length ∧ ∃ f, ir2.findIn m a = some f ∧ f.prim = some w := by
+  intro ir1 ir2
+  obtain ⟨f1, hf1, _⟩ := assign_sets rule ir m a ha v
+  have hb1 : ir1.findIn m b = some f1 := by rw [← findIn_ci ir1 m a b hs hq]; exact hf1
+  obtain ⟨f2, hf2, _, hp, hl⟩ := last_write_wins rule ir1 m b hb w f1 hb1
+  refine ⟨hl, f2, ?_, hp⟩
+  rw [findIn_ci _ m a b hs hq]; exact hf2
+
+/-! ### programs: the last assignment of a program wins -/
+
+theorem evalItems_append (rule : IdxRule) (xs ys : List Item) :
+    evalItems rule (xs ++ ys) = ys.foldl (step rule) (evalItems rule xs) := by
+  simp [evalItems, List.foldl_append]
+
+/-- whatever the program did before, when it ends with `a: w` written in map `m`, the field found under `a` carries `w` -/
+theorem last_assignment_wins_program (rule : IdxRule) (items : List Item) (m : Owner) (a : Name) (ha : a.ordinary) (w : String)
+    (hscope : (evalItems rule items).stack.headD [] = [m]) :
+    ∃ f, (evalItems rule (items ++ [.decl (assign a w)])).ir.findIn m a = some f ∧ f.prim = some w := by
+  rw [evalItems_append]
+  simp only [List.foldl_cons, List.foldl_nil, step, hscope, evalScopes]
+  have ho : (assign a w).opens = false := rfl
+  simp only [ho, Bool.false_eq_true, if_false]
+  exact assign_sets rule _ m a ha w
+
+/-! ### counterexamples (each replayed on d2 with a ten-line program calling `d2compiler.Compile`) -/
+
+def cxN (s : String) (p : Nat) (q : Bool := false) : Name := { s := s, q := q, pos := p }
+def cxE (a b : String) (p : Nat) : EdgeAst := { src := [cxN a p], dst := [cxN b (p + 5)], sa := false, da := true, pos := p }
+def liveEdges (ir : IR) : List Nat := (ir.edges.filter (·.alive)).map (·.id)
+def liveFields (ir : IR) (m : Owner) : List (String × Bool × Option String) := (ir.fieldsOf m).map fun f => (f.name.s, f.name.q, f.prim)
+
+/-- `a -> b; (a -> b)[0].style.opacity: null`: the null is addressed to one attribute, the whole connection is removed -/
+def cxEdgeAttrNull : List Decl :=
+  [ .mk [] [cxE "a" "b" 0] none [] none none none,
+    .mk [] [cxE "a" "b" 8] (some 0) [cxN "style" 20, cxN "opacity" 26] none (some .null) none ]
+theorem C10_cx_edge_attr_null_deletes_edge (rule : IdxRule) :
+    liveEdges (evalWith rule (cxEdgeAttrNull.take 1)) = [4] ∧ liveEdges (evalWith rule cxEdgeAttrNull) = [] ∧
+    (evalWith rule cxEdgeAttrNull).errs = [] := by
+  cases rule <;> exact ⟨by decide +kernel, by decide +kernel, by decide +kernel⟩
+
+/-- `a -> b; (a -> b)[0].label: hi; (a -> b)[0]: {label: null}`: removing the label inside the map removes the connection -/
+def cxEdgeMapNull : List Decl :=
+  [ .mk [] [cxE "a" "b" 0] none [] none none none,
+    .mk [] [cxE "a" "b" 8] (some 0) [cxN "label" 20] none (some (.str "hi")) none,
+    .mk [] [cxE "a" "b" 30] (some 0) [] none none (some [.mk [cxN "label" 45] [] none [] none (some .null) none]) ]
+theorem C10_cx_edge_map_null_deletes_edge (rule : IdxRule) :
+    liveEdges (evalWith rule (cxEdgeMapNull.take 2)) = [4] ∧ liveEdges (evalWith rule cxEdgeMapNull) = [] := by
+  cases rule <;> exact ⟨by decide +kernel, by decide +kernel⟩
+
+/-- `x: {label: hi; "label": obj}; x."label": null`: the null names the object `"label"`, the attribute `label` is removed instead
+    (`DeleteField` compares names without the quoted/unquoted split that `getField` makes for reserved keywords) -/
+def cxQuotedKeywordNull : List Decl :=
+  [ .mk [cxN "x" 0] [] none [] none none (some [ .mk [cxN "label" 4] [] none [] none (some (.str "hi")) none,
+                                               .mk [cxN "label" 15 true] [] none [] none (some (.str "obj")) none ]),
+    .mk [cxN "x" 30, cxN "label" 32 true] [] none [] none (some .null) none ]
+theorem C10_cx_quoted_keyword_null_deletes_attribute (rule : IdxRule) :
+    liveFields (evalWith rule cxQuotedKeywordNull) (.fld 1) = [("label", true, some "obj")] := by
+  cases rule <;> decide +kernel
+
+/-- `x: {a -> _.c}; x: null`: the connection lives in the parent map and `x` is not on its reference path, so it survives the
+    deletion of `x` — and the projection re-creates `x` and `x.a` as its endpoint -/
+def cxNullScope : List Decl :=
+  [ .mk [cxN "x" 0] [] none [] none none (some [ .mk [] [{ src := [cxN "a" 4], dst := [cxN "_" 9, cxN "c" 11], sa := false, da := true, pos := 4 }] none [] none none none ]),
+    .mk [cxN "x" 20] [] none [] none (some .null) none ]
+theorem C10_cx_null_scope_survives (rule : IdxRule) :
+    liveFields (evalWith rule cxNullScope) .root = [("c", false, none)] ∧ liveEdges (evalWith rule cxNullScope) = [5] ∧
+    ((project (evalWith rule cxNullScope)).ops.any fun o => match o with
+      | .connect [] ["x", "a"] ["c"] false true _ _ _ => true
+      | _ => false) = true := by
+  cases rule <;> exact ⟨by decide +kernel, by decide +kernel, by decide +kernel⟩
+
+/-- `a.label: L1; a: L2`: the later assignment of the label (as the primary value) loses against the earlier `label` keyword -/
+def cxLabelOrder : List Decl :=
+  [ .mk [cxN "a" 0, cxN "label" 2] [] none [] none (some (.str "L1")) none,
+    .mk [cxN "a" 12] [] none [] none (some (.str "L2")) none ]
+theorem C10_cx_label_keyword_beats_later_primary (rule : IdxRule) :
+    ((SemG.build (project (evalWith rule cxLabelOrder)).ops).nodes.map (·.label)) = ["", "L1"] := by
+  cases rule <;> decide +kernel
+
+example : Name.ordinary { s := "a", q := false, pos := 0 } := ⟨by decide, by decide⟩
 
 end D2V.Sem
